@@ -342,7 +342,9 @@ def gen_wrap_job(ch, jid, label):
     # the line decides which of them starts a line
     markup = [":class:`tf.data.Dataset`", ":func:`evaluate`", ":py:mod:`os.path`", "`axis=0`", "--verbose", "*weights", "(optional)", "e.g.,", "[batch,", "dim]", "x:y", "1.",
               # words that end in a hyphen (suspended hyphens), a dash between blanks, a hyphenated word
-              "pre-", "32-", "-", "well-known"]
+              "pre-", "32-", "-", "well-known",
+              # words ending in a backslash (a Windows path, a LaTeX line break)
+              "C:\\ProgramData\\", "\\\\"]
 
     def prose(lab, lo, hi):
         k = ch.int(lab, lo, hi)
@@ -440,7 +442,12 @@ def gen_replicas(seed, prop, njobs, nrep, tier):
             order = ch.shuffle("perm%d" % r, list(range(njobs))) if r > 0 else list(range(njobs))
             again = ch.sample("again%d" % r, list(range(njobs)), max(1, njobs // 4))
             schedule = order + again
-        reps.append({"rid": r, "hashseed": hs, "line_length": ll, "schedule": schedule})
+        # other per-process surroundings a conversion has no business reading: the size of the terminal (COLUMNS / LINES), the
+        # locale, the time zone
+        surroundings = None
+        if prop != "C18" and r >= 2 and ch.chance("surr%d" % r, 0.35):
+            surroundings = ch.choice("surrv%d" % r, [{"COLUMNS": "80", "LINES": "24"}, {"COLUMNS": "64"}, {"COLUMNS": "200"}, {"LC_ALL": "C", "LANG": "C"}, {"TZ": "Pacific/Auckland"}])
+        reps.append({"rid": r, "hashseed": hs, "line_length": ll, "schedule": schedule, "surroundings": surroundings})
     return reps
 
 
@@ -523,7 +530,9 @@ def c07_check_function(job, ir, sig_names, sig_params, live=False):
                                 {"how": "%s->%s" % (type(sp["default"]).__name__, type(d).__name__), "documented": _docmode(t), "style": t["style"],
                                  "announce_in_doc": any(x.get("announces") for x in t["params"].values()),
                                  # a placeholder where the signature has a value is another failure than a wrong value
-                                 "parsed_placeholder": d in (None, "None", "```None```", "```(None)```")}))
+                                 "parsed_placeholder": d in (None, "None", "```None```", "```(None)```"),
+                                 # the signature's default is a string that itself starts and ends with one and the same quote character
+                                 "sig_default_in_quotes": True if isinstance(sp["default"], str) and len(sp["default"]) >= 2 and sp["default"][0] == sp["default"][-1] and sp["default"][0] in "'\"" else None}))
         if not sp["has_default"] and "default" in p and p["default"] not in (None, "None", "```None```", "```(None)```") and not (t["params"].get(n) or {}).get("announces"):
             out.append(("3-default-invented", "%s: Python sees a required parameter, the parsed interface gives it the default %r" % (n, p["default"]),
                         {"documented": _docmode(t), "style": t["style"], "announce_in_doc": any(x.get("announces") for x in t["params"].values()),
@@ -1025,7 +1034,7 @@ def run_replicas(prop, jobs, replicas, want_payload=False, timeout=600):
                 tf = os.path.join(d, "task%d.json" % rep["rid"])
                 with open(tf, "wt") as f:
                     json.dump({"prop": prop, "jobs": jobs, "schedule": rep["schedule"], "line_length": rep.get("line_length"), "want_payload": want_payload}, f)
-                env = core.worker_env(hashseed=rep["hashseed"], extra={"DOCTRANS_LINE_LENGTH": rep.get("line_length")})
+                env = core.worker_env(hashseed=rep["hashseed"], extra=dict({"DOCTRANS_LINE_LENGTH": rep.get("line_length")}, **(rep.get("surroundings") or {})))
                 p = subprocess.Popen([core.PYTHON, "-W", "ignore", core.LAUNCHER, "worker", "replica", tf], env=env, cwd=core.VERIF,
                                      stdout=subprocess.PIPE, stderr=open(tf + ".err", "wb"))
                 running.append((rep, p, time.monotonic()))
@@ -1273,10 +1282,10 @@ def minimise(prop, item):
         ra, rb = item["rep"], item["rep2"]
         # 1. does the single job alone differ under the two hash seeds?  (hash dependence)
         doc = {"property": prop, "engine": "replica", "expect_sig": v["sig"], "detail": v["detail"], "seed": item["seed"], "job_id": job["id"], "jobs": [job],
-               "replicas": [{"rid": 0, "hashseed": ra["hashseed"], "line_length": None, "schedule": [job["id"]]},
-                            {"rid": 1, "hashseed": rb["hashseed"], "line_length": None, "schedule": [job["id"]]}]}
+               "replicas": [{"rid": 0, "hashseed": ra["hashseed"], "line_length": None, "schedule": [job["id"]], "surroundings": ra.get("surroundings")},
+                            {"rid": 1, "hashseed": rb["hashseed"], "line_length": None, "schedule": [job["id"]], "surroundings": rb.get("surroundings")}]}
         if execute_replay_doc(doc)[1]:
-            doc["class"] = "hash-dependence: the job alone gives different output under the two hash seeds"
+            doc["class"] = "process dependence: the job alone gives different output in the two processes (hash seed / surroundings)"
             return doc
         # 2. history dependence: one of the two occurrences differs from what the job gives on its own in a fresh
         #    process.  Find which, keep the prefix of that replica's schedule up to the occurrence, then ddmin it.
@@ -1287,8 +1296,8 @@ def minimise(prop, item):
             used = sorted(set(prefix) | {job["id"]})
             return {"property": prop, "engine": "replica", "expect_sig": v["sig"], "detail": v["detail"], "seed": item["seed"], "job_id": job["id"],
                     "jobs": [j for j in jobs if j["id"] in used],
-                    "replicas": [{"rid": 0, "hashseed": rep["hashseed"], "line_length": None, "schedule": [job["id"]]},
-                                 {"rid": 1, "hashseed": rep["hashseed"], "line_length": None, "schedule": prefix}]}
+                    "replicas": [{"rid": 0, "hashseed": rep["hashseed"], "line_length": None, "schedule": [job["id"]], "surroundings": rep.get("surroundings")},
+                                 {"rid": 1, "hashseed": rep["hashseed"], "line_length": None, "schedule": prefix, "surroundings": rep.get("surroundings")}]}
 
         def prefix_upto(rep, occ_needed):
             cnt = -1
@@ -1308,8 +1317,8 @@ def minimise(prop, item):
         if chosen is None:
             doc = mk(rb, list(rb["schedule"]))
             doc["class"] = "history dependence (could not be reduced to one replica against a fresh process)"
-            doc["replicas"] = [{"rid": 0, "hashseed": ra["hashseed"], "line_length": None, "schedule": list(ra["schedule"])},
-                               {"rid": 1, "hashseed": rb["hashseed"], "line_length": None, "schedule": list(rb["schedule"])}]
+            doc["replicas"] = [{"rid": 0, "hashseed": ra["hashseed"], "line_length": None, "schedule": list(ra["schedule"]), "surroundings": ra.get("surroundings")},
+                               {"rid": 1, "hashseed": rb["hashseed"], "line_length": None, "schedule": list(rb["schedule"]), "surroundings": rb.get("surroundings")}]
             doc["jobs"] = jobs
             return doc
         rep, best = chosen
